@@ -116,6 +116,18 @@ def handle (line : String) : String :=
       | some m => s!"returns marked={m.length}"
       | none => "never-returns"
     | none => "bad-op"
+  | ["nesting", kind, n] =>
+    match n.toNat?, nestingLimits.lookup (kind.replace "_" " ") with
+    | some n, some lim =>
+      let rec chain : Nat → Tree
+        | 0 => .node .nil
+        | k + 1 => .node (.cons (chain k) .nil)
+      if n == 0 then "bad-op" else if (chain (n - 1)).accepted lim 0 then s!"ok {n}" else "reject"
+    | _, _ => "bad-op"
+  | ["indent", n] =>
+    match n.toNat? with
+    | some n => showO toString (indentOut pythonIndent n)
+    | none => "bad-op"
   | ["filename", n] =>
     match n.toNat? with
     | some n => showO toString (fileNameOut fileNameCfg n)
